@@ -398,6 +398,10 @@ func (fx *FnCtx) applyContract(st *State, fr *callFrame, site ssa.Instruction, k
 		fx.oblige(st, fx.oname("pre", short+"]"+r.Tag()), "pre", r, g)
 	}
 	fx.atCalls(st, key, env)
+	// the callee may allocate
+	nt := fx.fresh("top", "Int")
+	fx.sol.Assert(tCmp(">=", nt, st.allocTop))
+	st.allocTop = nt
 	// frame
 	if con.Pure || (con.HasFrame && len(con.Assigns) == 0) {
 		// nothing changes
@@ -416,10 +420,6 @@ func (fx *FnCtx) applyContract(st *State, fr *callFrame, site ssa.Instruction, k
 			fx.havocTarget(st, t)
 		}
 	}
-	// the callee may allocate
-	nt := fx.fresh("top", "Int")
-	fx.sol.Assert(tCmp(">=", nt, st.allocTop))
-	st.allocTop = nt
 	var res *Val
 	if rt != nil {
 		res = st.freshVal(rt, "r_"+sanitize(short))
